@@ -151,6 +151,39 @@ theorem wrap_counter_full_width (t : Nat) :
 
 example : be64 (43 * 5 + 43) ≠ be64 ((43 * 5 + 43) % 256) := by decide
 
+/-- No narrower encoding of the step counter is RFC 3394: for every counter value `t` below 2^64
+and EVERY width `w` (in bytes) that `t` does not fit into, the eight bytes xor-ed into `A` differ
+from those of `t` truncated to `w` bytes (`PutUint8/16/32…` into the low-order bytes of a zeroed
+buffer).  With `wrap_is_rfc3394` / `wrap_code_eq_model` this is why a truncated counter cannot
+satisfy the theorems at any length whose `6·n` exceeds the width. -/
+theorem wrap_counter_not_truncated (t w : Nat) (ht : t < 18446744073709551616)
+    (hw : 256 ^ w ≤ t) : be64 t ≠ be64 (t % 256 ^ w) := by
+  intro h
+  have h1 := fromBe64_be64 t
+  have h2 := fromBe64_be64 (t % 256 ^ w)
+  rw [h, h2] at h1
+  have hpos : 0 < 256 ^ w := Nat.pow_pos (by decide)
+  have hlt : t % 256 ^ w < 256 ^ w := Nat.mod_lt _ hpos
+  generalize 256 ^ w = m at *
+  rw [Nat.mod_eq_of_lt ht, Nat.mod_eq_of_lt (by omega)] at h1
+  omega
+
+/-- The block counts at which the last counter value `6·n` first needs 2, 3, 4 bytes — the sizes the
+harness family `kwcounter` is built around (43, 10923, 2796203 blocks) — and the reason the fifth
+byte is out of reach of an execution: it needs at least 5 726 623 064 bytes of key data. -/
+theorem wrap_counter_boundaries :
+    (6 * 42 < 256 ^ 1 ∧ 256 ^ 1 ≤ 6 * 43) ∧ (6 * 10922 < 256 ^ 2 ∧ 256 ^ 2 ≤ 6 * 10923) ∧
+    (6 * 2796202 < 256 ^ 3 ∧ 256 ^ 3 ≤ 6 * 2796203) ∧
+    (∀ n, 256 ^ 4 ≤ 6 * n → 5726623064 ≤ 8 * n) := by
+  refine ⟨by decide, by decide, by decide, ?_⟩
+  intro n h
+  omega
+
+example : be64 (10923 * 5 + 10923) ≠ be64 ((10923 * 5 + 10923) % 256 ^ 2) :=
+  wrap_counter_not_truncated _ 2 (by decide) (by decide)
+example : be64 (2796203 * 5 + 2796203) ≠ be64 ((2796203 * 5 + 2796203) % 256 ^ 3) :=
+  wrap_counter_not_truncated _ 3 (by decide) (by decide)
+
 /-- For EVERY block function and every key data in the accepted set (any length, so also the
 lengths where the step counter exceeds one or two bytes) the Go-shaped model `wrap` computes
 exactly RFC 3394 §2.2.1 as written index by index in `Kit.Crypto.kwWrapWith`
